@@ -138,6 +138,32 @@ func iteValue(g *sym.Term, a, b Value) (Value, bool) {
 // loadSym reads through a guarded pointer set.
 func (in *Interp) loadSym(sp *SymPtr) Value {
 	n := len(sp.C)
+	// pointer-valued cells: the result is again a guarded pointer set
+	if _, ok := (*sp.C[0].p).(*Value); ok {
+		allPtr := true
+		for _, c := range sp.C {
+			if _, ok := (*c.p).(*Value); !ok {
+				allPtr = false
+			}
+		}
+		if allPtr {
+			np := &SymPtr{}
+			idx := map[*Value]int{}
+			for _, c := range sp.C {
+				q := (*c.p).(*Value)
+				if k, ok := idx[q]; ok {
+					np.C[k].g = sym.Or(np.C[k].g, c.g)
+					continue
+				}
+				idx[q] = len(np.C)
+				np.C = append(np.C, symCand{q, c.g})
+			}
+			if len(np.C) == 1 {
+				return np.C[0].p
+			}
+			return np
+		}
+	}
 	r := copyVal(*sp.C[n-1].p)
 	for i := n - 2; i >= 0; i-- {
 		v, ok := iteValue(sp.C[i].g, *sp.C[i].p, r)
